@@ -20,13 +20,13 @@ package raft
 // the stream d has a complete node at p when a bytes are available
 //@ pure NodeFits(d int, p int, a int) bool = 12 <= a && 17 + gword32(d, p + 8) <= a && 18 + gword32(d, p + 8) + gword32(d, p + 13 + gword32(d, p + 8)) <= a
 
-//@ func (Node).encode
+//@ func (Node).encode params(n, w)
 //@   requires w != nil
 //@   modifies wdata, wlen
 //@   ensures [C18.node-enc] result0 == nil && len(n.Addr) < 4294967296 && len(n.Data) < 4294967296 ==> Wrote(w, NodeLen(n)) && EncNode(wdata[ref(w)], old(wlen[ref(w)]), n)
 //@   ensures [C18.enc-frame] WroteSome(w)
 
-//@ func (*Node).decode
+//@ func (*Node).decode params(n, r)
 //@   requires r != nil
 //@   modifies rpos, all(n)
 //@   ensures [C18.node-dec] result0 == nil ==> Consumed(r, NodeLen(*n)) && EncNode(rdata[ref(r)], old(rpos[ref(r)]), *n)
@@ -36,10 +36,10 @@ package raft
 
 // decodeTaskResp only needs the error kind of the structured payload decoders (io errors are not errors of
 // this module, T-std); these views replace the trusted STUB contracts that verif_contracts_codec.go had
-//@ view (*Node).decode at decodeTaskResp
+//@ view (*Node).decode at decodeTaskResp params(n, r)
 //@   modifies rpos, all(n)
 //@   ensures ConsumedSome(r) && (result0 != nil ==> isexternal(result0))
-//@ view (*Info).decode at decodeTaskResp
+//@ view (*Info).decode at decodeTaskResp params(info, r)
 //@   requires [C18.decode-into-zero] info.Followers == nil
 //@   modifies rpos, all(info)
 //@   ensures ConsumedSome(r) && (result0 != nil ==> isexternal(result0))
@@ -72,7 +72,7 @@ package raft
 // a caller's io.Reader is older than this call, so with `modifies all(c), rpos` (which verifies: 51/51) every caller
 // would lose its own reader position. Hence the frame is declared as seen by callers and trusted; what it hides is
 // proved as [C18.dec-frame].
-//@ func (*Config).decode
+//@ func (*Config).decode params(c, e)
 //@   requires e != nil
 //@   modifies all(c)
 //@   trustframe rpos is written only at the bytes.Buffer allocated by this call (proved: [C18.dec-frame]); checked frame `modifies all(c), rpos` verifies
@@ -115,7 +115,7 @@ package raft
 //@ pure ReplLen(v Replication) int = 36 + len(v.ErrMessage)
 //@ pure ReplFits(d int, p int, a int) bool = 28 <= a && 36 + gword32(d, p + 24) <= a
 
-//@ func (*Replication).encode
+//@ func (*Replication).encode params(repl, w)
 //@   requires w != nil
 // call-site derived: the only producer ((*Raft).info) stores time.Now() values, never the Unix epoch, which
 // the wire format uses for "absent" (an epoch time would decode as nil: noted in DESIGN 9.6)
@@ -129,7 +129,7 @@ package raft
 // The decoder assigns the optional fields (Unreachable, Err) only when they are present on the wire, so the
 // decoded value is a function of the consumed bytes only for a receiver whose optional fields are zero:
 // [C18.decode-into-zero] is proved at every call site (a receiver reused for a second element violates it).
-//@ func (*Replication).decode
+//@ func (*Replication).decode params(repl, r)
 //@   requires r != nil
 //@   requires [C18.decode-into-zero] repl.Unreachable == nil && repl.Err == nil
 //@   modifies rpos, all(repl)
@@ -166,7 +166,7 @@ package raft
 // per position: the id of every encoded follower is a key, and the last occurrence of an id is the one that is kept
 //@ pure InfoElems(d int, v *Info) bool = forall(i, 0 <= i && i < v.gfn ==> has(v.Followers, gword(d, v.gfpos[i])) && v.gflast[gword(d, v.gfpos[i])] >= i)
 
-//@ func (*Info).decode
+//@ func (*Info).decode params(info, r)
 //@   requires r != nil
 //@   requires [C18.decode-into-zero] info.Followers == nil
 //@   modifies rpos, all(info)
@@ -206,7 +206,7 @@ package raft
 //@ pure FlrKeysOK(v Info) bool = forall(k, has(v.Followers, k) ==> v.Followers[k].ID == k)
 //@ pure InfoEncodable(v Info) bool = len(v.Addr) < 4294967296 && len(v.Followers) < 4294967296 && forall(k, has(v.Followers, k) ==> len(v.Followers[k].ErrMessage) < 4294967296)
 //@ pure FlrAt(d int, lo int, hi int, v Info, k uint64) bool = lo <= gwpos[k] && gwpos[k] + ReplLen(v.Followers[k]) <= hi && EncReplFull(d, gwpos[k], v.Followers[k])
-//@ func (Info).encode
+//@ func (Info).encode params(info, w)
 //@   requires [PA.unreachable-is-not-the-epoch] forall(k, has(info.Followers, k) && info.Followers[k].Unreachable != nil ==> tnano(info.Followers[k].Unreachable.wall, info.Followers[k].Unreachable.ext) != 0)
 //@   requires w != nil
 //@   modifies wdata, wlen, ginfoc1, ginfoc2, gwpos, gwprev
@@ -228,12 +228,12 @@ package raft
 // ---- request / response plumbing ---------------------------------------------------------------
 // the request object created for a wire type has that type (so the bytes that follow the type byte are decoded by
 // the matching decoder); an invalid type byte is a panic, not a value
-//@ func (rpcType).createReq
+//@ func (rpcType).createReq params(t)
 //@   requires [C18.createreq-valid] t == rpcIdentity || t == rpcVote || t == rpcAppendEntries || t == rpcInstallSnap || t == rpcTimeoutNow
 //@   ensures [C18.createreq-type] ptrnonnil(result0) && (t == rpcIdentity ==> istype(result0, *identityReq)) && (t == rpcVote ==> istype(result0, *voteReq)) && (t == rpcAppendEntries ==> istype(result0, *appendReq)) && (t == rpcInstallSnap ==> istype(result0, *installSnapReq)) && (t == rpcTimeoutNow ==> istype(result0, *timeoutNowReq))
 //@   ensures [C18.createreq-fresh] isfresh(ref(result0))
 
-//@ func (*resp).setErr
+//@ func (*resp).setErr params(resp, err)
 //@   modifies resp.err
 //@   ensures [C18.resp-seterr] resp.err == err && resp.term == old(resp.term) && resp.result == old(resp.result)
 
@@ -245,14 +245,14 @@ package raft
 // func contracts and turn the label contracts into `view ... at <callers>`.
 // index (8) | term (8) | entry of the configuration (21 + lc) | size (8)
 //@ ghost var gmetac int
-//@ func (*snapshotMeta).encode
+//@ func (*snapshotMeta).encode params(m, w)
 //@   requires w != nil
 //@   modifies wdata, wlen, gmetac
 //@   ghostcode after call encode 1: gmetac := len(result0.data)
 //@   ensures [C18.meta-enc] result0 == nil && gmetac < 4294967296 ==> Wrote(w, 45 + gmetac) && gword(wdata[ref(w)], old(wlen[ref(w)])) == m.index && gword(wdata[ref(w)], old(wlen[ref(w)]) + 8) == m.term && EncCfgHdr(wdata[ref(w)], old(wlen[ref(w)]) + 16, m.config) && gword32(wdata[ref(w)], old(wlen[ref(w)]) + 33) == gmetac && gword(wdata[ref(w)], wlen[ref(w)] - 8) == U64(m.size)
 //@   ensures [C18.enc-frame] WroteSome(w)
 
-//@ func (*snapshotMeta).decode
+//@ func (*snapshotMeta).decode params(m, r)
 //@   requires r != nil
 //@   modifies rpos, all(m), entry.index, entry.term, entry.typ, entry.data, elems(uint8), contents(m.config.Nodes)
 //@   ensures [C18.meta-dec] result0 == nil ==> m.index == gword(rdata[ref(r)], old(rpos[ref(r)])) && m.term == gword(rdata[ref(r)], old(rpos[ref(r)]) + 8) && EncCfgHdr(rdata[ref(r)], old(rpos[ref(r)]) + 16, m.config)
